@@ -26,6 +26,10 @@ func (e *Exec) evCall(c *ast.CallExpr) Val {
 		}
 	}
 	fv := e.calleeValue(c)
+	if f, ok := fv.(FuncV); ok && f.Lit == nil && isLogCall(f.Fn, c) {
+		// A-LOG: logging, metrics and tracing calls are dropped together with their argument expressions
+		return e.havocResult("log", e.callResultType(c))
+	}
 	var args []Val
 	sig, _ := e.typeOf(c.Fun).Underlying().(*types.Signature)
 	if len(c.Args) == 1 && sig != nil && sig.Params().Len() > 1 {
